@@ -124,7 +124,18 @@ if __name__ == '__main__':
     ap.add_argument('--repo', default='/repo')
     ap.add_argument('--prop', default='')
     ap.add_argument('--id', default='')
+    ap.add_argument('--silent-everywhere', action='store_true', help='run every behaviour-preserving variant against the checks of ALL properties')
     a = ap.parse_args()
+    if a.silent_everywhere:
+        props = ['C%02d' % i for i in range(1, 21) if i != 7]
+        vs = [dict(v, property=p, id=f"{v['id']}@{p}") for v in load_variants() if v['expect'] == 'silent' and (not a.id or a.id in v['id']) for p in props]
+        res = run_many(vs, a.repo)
+        for r in res:
+            if not r['ok']:
+                print('FAIL ' + r['id'] + ' ' + r['status'])
+                print('     ' + r['detail'][-800:].replace('\n', '\n     '))
+        print(f"{sum(1 for r in res if r['ok'])}/{len(res)} (twin, property) pairs silent")
+        sys.exit(0 if all(r['ok'] for r in res) else 1)
     vs = [v for v in load_variants() + seeded_variants() if (not a.prop or v['property'] == a.prop) and (not a.id or a.id in v['id'])]
     res = run_many(vs, a.repo)
     for r in res:
